@@ -765,6 +765,27 @@ def kfifo(ctx):
     # region predicate of the bounded variant: tail_old lies in the circular interval (head, tail]
     from .evalx import eval_pure
     B_ = X + "kirsch_bounded_kfifo_queue::"
+    # committed() works on the slot the pusher wrote
+    for C in (X + "kirsch_kfifo_queue::", B_):
+        for fn in flow._shapes(ctx, C + "committed"):
+            pidx = [i_ for i_, p_ in enumerate(fn.params) if "int" in p_.get("t", "") or "long" in p_.get("t", "")]
+            if not pidx:
+                continue
+            want = "param#%d" % pidx[-1]
+            slots = [a_ for a_ in fn.atomics() if a_["field"].endswith("entry::value")]
+            badc = None
+            for a_ in slots:
+                obj = a_["obj"]
+                idxs = [x for x in fn.subtree(obj) if fn.nodes[x]["k"] == "index" or (fn.nodes[x]["k"] == "call" and fn.nodes[x].get("callee", "").endswith("operator[]"))]
+                for x in idxs:
+                    s_ = flow.srcs(fn, fn.kids(x)[1])
+                    if "bounded" in C and not (want in s_ and not any(t.startswith("param#") and t != want for t in s_)):
+                        badc = (a_["nid"], fn.expr(fn.kids(x)[1]))
+            if "bounded" in C:
+                ctx.check(badc is None and bool(slots), rid2, C + "committed#same-slot", "every access of committed() addresses the slot index it was handed",
+                          "committed() accesses _queue[%s] instead of the slot the pusher wrote (its index parameter): for k >= 2 the retracting CAS hits another slot, fails, and "
+                          "committed() reports success although the value sits in a segment behind head (push succeeds, pop reports empty)" % (badc[1] if badc else ""),
+                          fn.where(badc[0]) if badc else fn.where(), fn=fn)
     # tail never moves onto the head segment
     rid8 = "KF.tail-never-onto-head"
     ctx.rule(rid8, "bounded k-FIFO try_push: the CAS that advances _tail is reached only when the next segment is known not to be the head segment - "
@@ -991,6 +1012,33 @@ def kfifo(ctx):
                         if v is not None and v > 255:
                             lim = v if lim is None else min(lim, v)
         ok = bool(thr) and lim is not None and lim <= (1 << bits)
+        # the size check itself, executed with 64-bit wrap-around arithmetic on a grid that includes products beyond 2^64
+        from .evalx import run_until as _run_until
+        for fn in ctx.facts.shapes(B + "checked_queue_size"):
+            if len(fn.params) != 2:
+                continue
+            throws = set(flow.find(fn, {"k": "throw"}))
+            badc = None
+            try:
+                for k_ in (1, 2, 3, 1 << 16, 1 << 32, (1 << 32) + 1, 1 << 33):
+                    for s_ in (1, 2, 5, 1 << 16, 1 << 31, 1 << 32, 12297829382473034412, 1 << 63, (1 << 64) - 1):
+                        res = {}
+
+                        def on_event(f, e, env, res=res):
+                            if f.nodes[e]["k"] == "return" and f.kids(e):
+                                res["ret"] = evalx(f, f.kids(e)[0], env)
+                        env, at = _run_until(fn, {fn.params[0]["name"]: k_, fn.params[1]["name"]: s_}, lambda f, e: e in throws, on_event=on_event)
+                        threw = at is not None
+                        exact = k_ * s_
+                        if (exact > (1 << bits)) != threw or (not threw and res.get("ret") != exact):
+                            badc = badc or (k_, s_, "throws" if threw else "accepts (size %s)" % res.get("ret"), exact)
+            except Unknown as ex:
+                ctx.broken.append("checked_queue_size not executable (%s)" % ex)
+                continue
+            ctx.check(badc is None, rid3, B + "checked_queue_size#overflow-safe", "the size check decides on the exact product for all grid points incl. products beyond 2^64",
+                      "checked_queue_size(k=%s, num_segments=%s) %s although k*num_segments = %s: a product that wraps around 2^64 passes the bound, the queue is built with a "
+                      "ring that is not k*num_segments slots long (not even a multiple of k): pops return values that are not among the k oldest / nothing can be stored" % (
+                          badc or (0, 0, "", 0)), fn.where(), fn=fn)
         ctx.check(ok, rid3, B + "kirsch_bounded_kfifo_queue#size<=2^bits", "constructor rejects sizes above %s <= 2^%d" % (lim, bits),
                   "marked_idx stores the ring index in %d bits but the constructor accepts any k*num_segments (%s): for larger queues head/tail indexes are truncated and "
                   "push/pop never terminate" % (bits, "no throwing size check" if not thr else "limit %s" % lim), "xenium/kirsch_bounded_kfifo_queue.hpp", None)
